@@ -305,6 +305,8 @@ func cmdCheck(args []string) int {
 			}
 		}
 		if isKnown {
+			// a recorded finding is reported on its own line and is not part of what the check claims as proved
+			claimed--
 			continue
 		}
 		v := violation{Oblig: o.Name, Reason: fmt.Sprintf("obligation not discharged (%s by %s): %s at %s", o.Status, o.Solver, o.Desc, o.Pos)}
